@@ -24,7 +24,7 @@ func vhInputLen(name string, max int) int { return vChoose(name, max+1) }
 func VH_C13_extract() {
 	max := 12
 	if vTier() == 1 {
-		max = 24
+		max = 16
 	}
 	n := vhInputLen("n", max)
 	d := vBytes("d", n)
@@ -100,7 +100,7 @@ func VH_C13_extract() {
 func VH_C13_keys() {
 	max := 20
 	if vTier() == 1 {
-		max = 30
+		max = 24
 	}
 	n := vhInputLen("n", max)
 	d := vBytes("d", n)
@@ -135,7 +135,7 @@ func VH_C13_keys() {
 func VH_C13_sexp() {
 	max := 4
 	if vTier() == 1 {
-		max = 6
+		max = 5
 	}
 	n := vhInputLen("n", max)
 	d := vBytes("d", n)
